@@ -295,6 +295,10 @@ def _dunders(ctx):
                         o.refute(f, r, r, f"`{d}` wraps only the left calendar (`{src(vv)[:60]}`){when}: on a date where the left calendar "
                                           f"has no information the result is None, but an operand without information is skipped, so the "
                                           f"result must be the number (the operator applied to [self, FixedCalendar({f.params[1]})])")
+                    elif isinstance(leaf, ast.BinOp) and (_name(leaf.left, lam.args.args[0].arg) or _name(leaf.right, lam.args.args[0].arg)):
+                        o.refute(f, r, r, f"`{d}` wraps only the left calendar (`{src(vv)[:60]}`){when}: on a date where the left calendar "
+                                          f"has no information the function computes `{src(leaf)}` with None (TypeError), but an operand "
+                                          f"without information is skipped, so the result must be the number")
                     else:
                         o.undecided(f, r, r, f"`{d}` returns the unary wrapper `{src(vv)[:60]}`{when} instead of a combinator")
                 elif _is_helper_call(prog, f, vv):
@@ -360,6 +364,13 @@ def _dunders(ctx):
             if h is not None:
                 helpers[d] = h
                 op.site(f, rets[0], f"{d}: {h.name}(other)")
+            elif isinstance(b, ast.Name) and b.id == other and any(
+                    len(cl) == 1 and (_type_atom(cl[0][0], cl[0][1], other, _module_consts(prog, f.module)) or (set(), True))[1] is False
+                    and {'int', 'float'} <= _type_atom(cl[0][0], cl[0][1], other, _module_consts(prog, f.module))[0]
+                    for cl in U.path_clauses(prog, f, rets[0], ctx.typer)):
+                # numbers never reach this path (an earlier branch took them): `other` is a calendar here and stays as it is;
+                # what the number branch returns is judged by op_table
+                op.site(f, rets[0], f"{d}: `other` is not a number on this path")
             elif isinstance(b, ast.Name) and b.id == other:
                 op.refute(f, rets[0], rets[0], f"`{d}` passes `other` unpromoted: a number is not turned into a constant calendar")
             else:
@@ -1270,6 +1281,8 @@ def _arith(ctx, o, orr, osb, f, K, d, pre, loop, tail, H=None):
                 this = (type(st.op), False)
         elif isinstance(st, ast.Assign):
             rhs = chosen(ex.expand(st.value, stop={acc}))
+            if not isinstance(rhs, (ast.BinOp, ast.Call)) and r.local and isinstance(r.local.get(acc), (ast.BinOp, ast.Call)):
+                rhs = chosen(r.local[acc])          # `tmp = acc; tmp /= v; acc = tmp` (a spliced helper): the tracked value
             if isinstance(rhs, ast.BinOp):
                 if same(rhs.left, accn) and same(rhs.right, v):
                     this = (type(rhs.op), False)
